@@ -40,10 +40,22 @@ def _get_value(field, cls):
     return wrapped
 
 
+def _nested_fields(field):
+    # the fields whose serialize() the field's own serialize() calls: the items of a collection
+    # (one field or a list of them) and the options of an AnyOf
+    items = getattr(field, "items", None)
+    if isinstance(items, Field):
+        yield items
+    elif isinstance(items, (list, tuple)):
+        yield from (i for i in items if isinstance(i, Field))
+    if isinstance(field, AnyOf):
+        yield from (f for f in getattr(field, "_fields", []) if isinstance(f, Field))
+
+
 def _verify_is_fast_serializable(field):
     obj = field._ty if isinstance(field, ClassReference) else field
-    if isinstance(field, Array) and isinstance(field.items, (Field, ClassReference)):
-        _verify_is_fast_serializable(field.items)
+    for nested in _nested_fields(field):
+        _verify_is_fast_serializable(nested)
 
     if isinstance(field, ClassReference):
         if not issubclass(obj, FastSerializable):
